@@ -31,6 +31,11 @@ fn cfg_for(config: &str) -> GenCfg {
     "td-crash" => { c.crash = true; }
     "x-hidden-td" | "x-overlap-td" | "x-cycle-td" | "x-any-td" => { c.class = Class::X; }
     "x-hidden-bu" | "x-overlap-bu" | "x-cycle-bu" | "x-any-bu" => { c.class = Class::X; c.bottom_up = 50; c.td_between = true; }
+    "td-backends" => { c.sim_fams_only = false; }
+    "bu-backends" => { c.sim_fams_only = false; c.bottom_up = 60; c.all_roots_td = true; }
+    "td-files" => { c.files = true; }
+    "bu-files" => { c.files = true; c.bottom_up = 60; c.all_roots_td = true; }
+    "files-replay" => { c.files = true; c.replays = 2; c.bottom_up = 40; c.all_roots_td = true; }
     "id-td" => { c.wrappers = true; }
     "id-bu" => { c.wrappers = true; c.bottom_up = 60; c.all_roots_td = true; }
     "v-td" => { c.class = Class::V; }
